@@ -275,6 +275,16 @@ func propC20(c *ctx) error {
 		}
 		os.WriteFile(filepath.Join(dir, "ignored.txt"), []byte("<p :text=\"${T('not a template')}\">"), 0o644)
 		out := filepath.Join(dir, "out.pot")
+		// the catalogue of an EARLIER, larger extraction is already in the output file in half of the cases: the file is
+		// rewritten, nothing of the old catalogue survives
+		if i%2 == 0 {
+			var old strings.Builder
+			old.WriteString("msgid \"\"\nmsgstr \"old header\"\n\n")
+			for k := 0; k < 60; k++ {
+				fmt.Fprintf(&old, "#: gone.html:%d:3\nmsgid \"stale entry %d\"\nmsgstr \"\"\n\n", k+1, k)
+			}
+			os.WriteFile(out, []byte(old.String()), 0o644)
+		}
 		argv := []string{"-path", dir, "-output", out}
 		if kwFlag != "" {
 			argv = append(argv, "-keywords", kwFlag)
